@@ -1,4 +1,4 @@
-import DFV.Lemmas.C06HistSubs
+import DFV.Lemmas.C06MeanSeq
 /-!
 # C06 — integrals and means are cell sums times cell measure, consistent across axes
 
@@ -74,6 +74,16 @@ theorem integrate_dir_1d (f : Fld) (hf : WF f) (d : String) (v : List Rat)
   simp only [cget]
   rw [getD_tab _ _ _ _ hc, mul_comm, hf.2]
   rfl
+
+/-- The cell measure is consistent across axis removal: the reduced mesh `integrate(d)` /
+`mean(d)` / `Mesh.sel(d)` return has the cell lengths of the remaining axes (`skip ax a` is the
+original position of the reduced mesh's axis `a`), and the cell volume of the original mesh is
+the cell length of the removed axis times the cell volume of the reduced mesh. -/
+theorem reduced_mesh_cells (m : Mesh) (hm : m.Inv) (d : String) (m' : Mesh) (h : sel m d = .ok m') :
+    ∃ ax, m.region.dim2index d = .ok ax ∧ (∀ a, m'.cellAt a = m.cellAt (skip ax a)) ∧
+      dV m = m.cellAt ax * dV m' ∧ m'.Inv := by
+  obtain ⟨ax, hax, _⟩ := sel_spec m hm d m' h
+  exact ⟨ax, hax, fun a => sel_cellAt m hm d m' h ax hax a, sel_dV m hm d m' h ax hax, sel_inv m hm d m' h⟩
 
 /-! ## Fubini: any order of directions gives the volume integral -/
 
@@ -963,6 +973,44 @@ theorem integrateSeq_perm_total (f : Fld) (hf : WF f) (hsubs : SubsFit f.mesh) (
   obtain ⟨_, _, _, hn, hs, _, hv⟩ := integrateSeq_perm f hf ds ds' hp g g' hg hg'
   exact ⟨g, g', hg, hg', hn, hs, hv⟩
 
+/-- Means are consistent across axes too: averaging direction by direction (bare names, each
+step on the reduced mesh the previous step returned), in any order of a proper subset `ds` of
+the directions, gives exactly `mean(ds)` — the same reduced mesh (subregions included) and the
+same values. -/
+theorem meanSeq_eq_mean_list (f : Fld) (hf : WF f) (ds : List String) (gs gm : Fld)
+    (hs : meanSeq f ds = .ok (.field gs)) (hm : mean f (.names ds) = .ok (.field gm)) :
+    gs.mesh = gm.mesh ∧ gs.data.shape = gm.data.shape ∧ gs.nvdim = gm.nvdim ∧
+    ∀ i c, inRange gm.data.shape i = true → c < f.nvdim → cget gs.data i c = cget gm.data i c := by
+  obtain ⟨_, m', axes, hselm, hax, hshape, hgm⟩ := mean_names_unpack f ds gm hm
+  obtain ⟨axes', C', hax', hselm', hinv, hprod⟩ := mean_chain f hf ds f _ 1 gs (chainInv_init f hf) hs
+  rw [hax] at hax'; injection hax' with hax'; subst hax'
+  rw [hselm] at hselm'; injection hselm' with hselm'
+  rw [← keepMask_eq_foldl, dropProd_allTrue] at hprod
+  rw [← keepMask_eq_foldl] at hinv
+  obtain ⟨hwgs, _, hnv, _, _, _, _, hn, hval⟩ := hinv
+  subst hgm
+  have hshape' : gs.data.shape = (meanAxes f.nvdim f.data axes).shape := by
+    rw [hwgs.2, ← hselm', hshape]
+  refine ⟨hselm'.symm, hshape', hnv, ?_⟩
+  intro i c hin hc
+  have hin' : inRange (meanAxes f.nvdim f.data axes).shape i = true := hin
+  simp only
+  rw [cget_force (meanAxes f.nvdim f.data axes) i c hin', cget_meanAxes _ _ _ _ _ hc,
+    hval i c (by rw [← hwgs.2, hshape']; exact hin') hc, hf.2]
+  have hD : (0 : Rat) < (dropProd (keepMask f.mesh.n.length axes) f.mesh.n : Rat) := by
+    have : 0 < dropProd (keepMask f.mesh.n.length axes) f.mesh.n := by
+      apply dropProd_pos
+      intro k hk
+      obtain ⟨a, ha, rfl⟩ := List.getElem_of_mem hk
+      have := hf.1.2.2 a (by show a < f.mesh.region.ndim; rw [← hf.1.2.1]; exact ha)
+      unfold Mesh.nAt at this
+      simpa [List.getD_eq_getElem?_getD, ha] using this
+    exact_mod_cast this
+  have hC : C' = 1 / (dropProd (keepMask f.mesh.n.length axes) f.mesh.n : Rat) := by
+    field_simp
+    rw [hprod]; ring
+  rw [hC]; ring
+
 /-! ## Axis removal with subregions
 
 `SubsFit m`: every subregion of `m` starts a whole number of cells into the region and is a
@@ -1017,6 +1065,37 @@ theorem integrate_mean_dir_mesh (f : Fld) (d : String) (g : Fld) :
     obtain ⟨_, m', _, hsel, _, hg⟩ := mean_name_unpack f d _ h
     injection hg with hg
     rw [hsel, hg]
+
+/-- … and both exist: for every list of distinct directions shorter than the number of
+dimensions, in any order, on a well-formed field whose subregions fit the mesh, the
+direction-by-direction mean and `mean(list)` both succeed and agree (mesh and values). -/
+theorem meanSeq_total (f : Fld) (hf : WF f) (hsubs : SubsFit f.mesh) (ds : List String)
+    (hnd : ds.Nodup) (hmem : ∀ d ∈ ds, d ∈ f.mesh.region.dims) (hlen : ds.length < f.mesh.ndim) :
+    ∃ gs gm, meanSeq f ds = .ok (.field gs) ∧ mean f (.names ds) = .ok (.field gm) ∧ gs.mesh = gm.mesh ∧
+      ∀ i c, inRange gm.data.shape i = true → c < f.nvdim → cget gs.data i c = cget gm.data i c := by
+  have hex : ∃ gs, meanSeq f ds = .ok (.field gs) := by
+    induction ds generalizing f with
+    | nil => exact ⟨f, rfl⟩
+    | cons d ds ih =>
+      have hlen' : ds.length + 1 < f.mesh.ndim := by simpa using hlen
+      have hd := hmem d (by simp)
+      obtain ⟨g, hg, hwf, hgs, hgnd, hgmem⟩ := step_ok f hf hsubs (by omega) d hd
+      obtain ⟨g1, hg1⟩ := mean_dir_ok f hf hsubs (by omega) d hd
+      have hm1 := (integrate_mean_dir_mesh f d g).1 hg
+      have hm2 := (integrate_mean_dir_mesh f d g1).2 hg1
+      rw [hm1] at hm2; injection hm2 with hm2
+      obtain ⟨ax, m', _, hsel, hshape, hr⟩ := mean_name_unpack f d _ hg1
+      injection hr with hr
+      have hwf1 : WF g1 := ⟨by rw [← hm2]; exact hwf.1, by rw [hr]; exact hshape⟩
+      obtain ⟨hdn, hnd'⟩ := List.nodup_cons.mp hnd
+      obtain ⟨gs, hgs'⟩ := ih g1 hwf1 (by rw [← hm2]; exact hgs) hnd'
+        (fun d' hd' => by rw [← hm2]; exact hgmem d' (hmem d' (by simp [hd'])) (fun h => hdn (h ▸ hd')))
+        (by rw [← hm2]; omega)
+      exact ⟨gs, by unfold meanSeq; simp only [hg1]; exact hgs'⟩
+  obtain ⟨gs, hgs⟩ := hex
+  obtain ⟨gm, hgm⟩ := mean_dirs_ok f hf hsubs ds hnd hmem hlen
+  obtain ⟨hmesh, _, _, hv⟩ := meanSeq_eq_mean_list f hf ds gs gm hgs hgm
+  exact ⟨gs, gm, hgs, hgm, hmesh, hv⟩
 
 /-! ## In-place histories: cell volume and integrals follow the mesh
 
@@ -1293,15 +1372,20 @@ theorem mean_ok_iff (f : Fld) (hf : WF f) (hsubs : SubsFit f.mesh) (dir : Dir) :
 
 /-- Invariant over histories: after ANY history of `mesh.scale` / `mesh.translate` in-place
 steps (which transform the region and every subregion alike; negative factors reflect) the
-subregions still fit the mesh — so every directional integral, every cumulative integral and
+subregions still fit the mesh; on a mesh without subregions the same holds for ANY history,
+region-level steps included.  So every directional integral, every cumulative integral and
 every mean that existed before still exists (acceptance theorems `integrate_ok_iff`,
 `mean_ok_iff` apply to the current state). -/
 theorem subregions_fit_after_history (f : Fld) (hf : WF f) (hsubs : SubsFit f.mesh) (steps : List HStep)
-    (hall : ∀ s ∈ steps, (∃ fac ref, s = HStep.scaleMesh fac ref) ∨ (∃ v, s = HStep.translateMesh v)) :
+    (hall : (∀ s ∈ steps, (∃ fac ref, s = HStep.scaleMesh fac ref) ∨ (∃ v, s = HStep.translateMesh v)) ∨
+      f.mesh.subs = []) :
     WF (runH f steps) ∧ SubsFit (runH f steps).mesh ∧
     ∀ d, d ∈ f.mesh.region.dims → ∀ cum, ∃ r, integrate (runH f steps) (.name d) cum = .ok r := by
   obtain ⟨hwf, _, _, _, hdims, _, _⟩ := runH_spec steps f hf
-  have hfit := subsFit_runH steps hall f hf hsubs
+  have hfit : SubsFit (runH f steps).mesh := by
+    rcases hall with hall | hnil
+    · exact subsFit_runH steps hall f hf hsubs
+    · exact subsFit_nil _ (runH_subs_nil steps f hnil)
   refine ⟨hwf, hfit, ?_⟩
   intro d hd cum
   exact (integrate_ok_iff _ hwf hfit (.name d) cum).mpr (by rw [hdims]; exact hd)
@@ -1427,6 +1511,13 @@ example : ∀ t, cget exFld.data t 0 ≤ cget (absF exFld).data t 0 := by
   intro t
   rw [cget_absF exFld t 0 (by decide)]
   exact le_abs_self _
+
+/-- hypotheses of `meanSeq_eq_mean_list`: a direction-by-direction mean and the list mean exist
+for an order that is not the storage order -/
+example : ∃ gs gm, meanSeq exFld3 ["z", "x"] = .ok (.field gs) ∧ mean exFld3 (.names ["z", "x"]) = .ok (.field gm) := by
+  obtain ⟨gs, gm, h1, h2, _⟩ := meanSeq_total exFld3 exFld3_wf (subsFit_nil _ rfl) ["z", "x"]
+    (by decide) (by decide) (by decide)
+  exact ⟨gs, gm, h1, h2⟩
 
 /-- refusals are reached: an unknown name, a duplicate -/
 example : exFld.mesh.region.dim2index "q" = .error .value ∧ hasDup ["x", "y", "x"] = true := ⟨by decide, by decide⟩
